@@ -980,7 +980,11 @@ func (x *Exec) overflowNote(st *State, r Term, t types.Type, pos token.Pos, op s
 	}
 	if lo, hi, ok := intRange(b); ok && x.overflowProps != nil {
 		goal := App(SBool, "and", App(SBool, "<=", Term{lo, SInt}, r), App(SBool, "<=", r, Term{hi, SInt}))
-		x.oblige(st, "overflow", "machine arithmetic "+op+" does not wrap", goal, pos, x.overflowProps)
+		name := "machine arithmetic " + op + " does not wrap"
+		if src := x.prog.srcExprAt(pos); src != "" {
+			name = "machine arithmetic " + op + " does not wrap: " + src
+		}
+		x.oblige(st, "overflow", name, goal, pos, x.overflowProps)
 		// the rest of the path is verified for the non-wrapping case; the wrapping case is this obligation
 		st.assume(goal)
 	}
